@@ -56,6 +56,30 @@ class Facts:
         m = self.find(regex)
         return m[0] if len(m) == 1 else None
 
+    def methods(self, impl_self, name, trait_suffix=None):
+        """bodies named `name` in impls whose self type string starts with impl_self (generic args ignored)"""
+        out = []
+        for b in self.body_list:
+            if b.name != name or b.kind == 'Closure':
+                continue
+            st = b.raw.get('impl_self')
+            if st is None:
+                continue
+            base = re.sub(r'<.*$', '', st)
+            if base != impl_self:
+                continue
+            tr = b.raw.get('impl_trait')
+            if trait_suffix is None and tr is not None:
+                continue
+            if trait_suffix is not None and (tr is None or not tr.endswith(trait_suffix)):
+                continue
+            out.append(b)
+        return out
+
+    def method(self, impl_self, name, trait_suffix=None):
+        m = self.methods(impl_self, name, trait_suffix)
+        return m[0] if len(m) == 1 else None
+
     def closures_of(self, path):
         return self._closures.get(path, [])
 
